@@ -183,6 +183,15 @@ def run(ck, m):
     oks = bool(sorts) and all(lb.postdominates(s_, 0) for s_ in sorts)
     ck.ob('C01.c', fn, 'sorted', oks, 'the result is sorted on every path before it is returned' if oks else 'the key list is returned unsorted',
           lb.loc(sorts[0]) if sorts else '%s:%s' % (lb.file, lb.line))
+    # every answer is computed by this call: the scan of the shared map (its read lock) lies on every path to the return — an answer kept
+    # from an earlier call was filtered with THAT call's flag and state of the map
+    from nl import locks as _locks
+    scans = [bi for bi, t in lb.calls() if callee_decl(t) in _locks.LOCK_FNS and 'Database.map' in _locks.lock_id_of(lb, t['args'][0])]
+    fresh = bool(scans) and any(lb.postdominates(x, 0) for x in scans)
+    ck.ob('C01.c', fn, 'answer-computed-by-this-call', fresh,
+          'every path of the listing scans the shared map under its lock' if fresh else
+          'the listing can answer without scanning the map (a remembered answer): it was filtered with the flag and the pattern of an earlier '
+          'call — a non-administrator is handed the administrator\'s listing, or a listing older than the last write', '%s:%s' % (lb.file, lb.line))
     # the matcher is handed the pattern the client sent: no rewriting of the pattern text between the request and the matcher (the
     # prefix / suffix matchers strip the wildcard themselves; the contains matcher takes the text literally, `*` included)
     nm_, rew = 0, []
